@@ -30,7 +30,8 @@ RULE = ("case = one generated fully named netlist x {faithful copies: rebuild, c
         "added) at a random site x both orders; distinct = shape hash; non-trivial = >=12 mutation kinds applicable")
 ASSUMPTIONS = ["any exception counts as 'raises' (lookups by name raise StopIteration when the named element is gone)",
                "copies for the negative side are rebuilt through the API (clone is not registered with the namespace manager)"]
-REQUIRED = {"positive_compares": 200, "mutants_compared": 2000, "mutation_kinds": 18}
+REQUIRED = {"positive_compares": 200, "mutants_compared": 2000, "mutation_kinds": 18,
+            "instances_rewired_through_handles_then_repointed": 5}
 
 
 def plan(tier):
@@ -271,7 +272,7 @@ def handles_then_repoint(rng, n):
     k = 0
     insts = [c for d in defs_of(n) for c in d.children if c.reference is not None]
     rng.shuffle(insts)
-    for i in insts[:6]:
+    for i in insts[:16]:
         cands = [d for d in defs_of(n) if d is not i.reference and shape(d) == shape(i.reference) and d is not i.parent and
                  not d.children and d.library is not None and
                  (d.library is i.parent.library or d.library is i.reference.library)]      # (no new library dependency)
@@ -591,7 +592,7 @@ def run_case(ctx, i, rng):
         ctx.count("netlists_with_planted_same_named_twins")
     if i % 4 in (1, 2):
         ctx.count("siblings_differing_only_in_case", plant_case_twins(rng, n))
-    if i % 3 == 0:
+    if i % 3 == 0 or i % 4 == 2:
         ctx.count("instances_rewired_through_handles_then_repointed", handles_then_repoint(rng, n))
     if i % 8 == 5:
         ctx.count("netlists_with_a_port_wider_than_256", plant_wide(rng, n))
